@@ -23,6 +23,7 @@ EXPLANATION = (
     "the transfer-syntax loop, the result codes per branch and the mode selection in ACSE are matched "
     "structurally. Not decided: full functional correctness over all lists (dict-key collisions, "
     "duplicate context IDs)."
+    ' Fourth session: the accepted / rejected partition is evaluated on result codes 0..4, 5, 255 and None (inline or in a helper); a 128-context request with repeated proposals yields one result object per context id; (registry-live) no import-time copy of a table register_uid() extends is consulted by library code.'
 )
 
 B = (True, False)
